@@ -149,6 +149,9 @@ func (e *Enc) applyCall(v ssa.Value, c *ssa.CallCommon, args []TV, in ssa.Instru
 			}
 			pure = true
 			e.inferredUsed[key] = true
+		} else if os.Getenv("GOVC_NOINLINE") == "" && e.w.inlinableImpure(fn) && e.inlineCall(v, fn, args, guard) {
+			// a small helper with side effects (an extracted block of statements): encoded from its body
+			return
 		}
 		if !pure {
 			if key == "" {
